@@ -1033,6 +1033,26 @@ func c18EscapeChain(c *Ctx, r *Report, clause string) {
 			case strings.HasSuffix(t.Name, "Replacer).Replace") && len(t.Args) == 2:
 				// (*strings.Replacer).Replace(strings.NewReplacer(o1, n1, o2, n2 …), IN)
 				nr := t.Args[0]
+				if nr.Op != "call" {
+					// a package-level replacer that nothing reassigns: its initialiser
+					if id, ok := nr.Node.(*ast.Ident); ok {
+						if v, ok := info.Uses[id].(*types.Var); ok && v.Pkg() != nil && v.Parent() == v.Pkg().Scope() {
+							if init, assigned := pkgVarInitOf(f, v); init != nil && !assigned {
+								if call, ok := unparen(init).(*ast.CallExpr); ok {
+									if fn := callee(info, call); fn != nil && fn.FullName() == "strings.NewReplacer" {
+										for i := 0; i+1 < len(call.Args); i += 2 {
+											o, ok1 := constString(info, call.Args[i])
+											n, ok2 := constString(info, call.Args[i+1])
+											if ok1 && ok2 {
+												pairs[o] = n
+											}
+										}
+									}
+								}
+							}
+						}
+					}
+				}
 				if nr.Op == "call" && strings.HasSuffix(nr.Name, "strings.NewReplacer") {
 					for i := 0; i+1 < len(nr.Args); i += 2 {
 						o, ok1 := strOf(nr.Args[i])
